@@ -51,9 +51,11 @@ def quic_dependents(doc):
     return sorted(bad)
 
 
-def filter_class(text):
-    """known-finding classes of a filter text (see known_findings.json): nesting that makes the recursive-descent
-    parser / type checker overflow the stack, and bracket nesting that makes the parser re-parse exponentially"""
+def filter_class(text, worker=False):
+    """known-finding class of a filter text (see known_findings.json): nesting that makes the recursive-descent parser /
+    type checker overflow the stack.  The hook build has larger frames than the shipped profile (brackets: about 145
+    levels on the main thread and 33 on a 2 MB worker thread, against about 660 and 175); the thresholds below are the
+    hook build's, with a margin.  worker=True: the text is handled on a worker thread (POST /api/rules)."""
     if not isinstance(text, str):
         return []
     depth, mx, run, mxrun = 0, 0, 0, 0
@@ -71,9 +73,7 @@ def filter_class(text):
     chain = text.count("?") + text.count("if ") + text.count("let ")
     ops = sum(text.count(o) for o in ("+", "-", "*", "/", "&&", "||", "==", "."))
     tags = []
-    if mx >= 18:
-        tags.append("C18-nested-bracket-exponential")
-    if mx >= 200 or mxrun >= 200 or chain >= 200 or ops >= 4000:
+    if mx >= (28 if worker else 130) or mxrun >= 200 or chain >= 200 or ops >= 4000:
         tags.append("C18-deep-filter-stack-overflow")
     return tags
 
@@ -93,9 +93,25 @@ def doc_tags(doc):
     return tags
 
 
-DEEP_FILTERS = [("paren depth 3000", "(" * 3000 + "1" + ")" * 3000 + " == 1"), ("paren depth 40", "(" * 40 + "1" + ")" * 40 + " == 1"),
+DEEP_FILTERS = [("paren depth 3000", "(" * 3000 + "1" + ")" * 3000 + " == 1"),
                 ("unary run 6000", "!" * 6000 + "true"), ("ternary chain 3000", "true ? true : " * 3000 + "true"),
-                ("operator chain 30000", "1" + "+1" * 30000 + " == 1"), ("array depth 30", "[" * 30 + "1" + "]" * 30 + " == 1")]
+                ("operator chain 30000", "1" + "+1" * 30000 + " == 1")]
+
+
+def nested(n):
+    """nesting that the parser / checker re-parsed or re-typed at every level until 93a4f8e / 85e7ccf (time grew by a
+    factor of 2 to 6 per level): must be answered, with OK or an error, in time"""
+    return [("paren depth %d" % n, "(" * n + "1" + ")" * n + " == 1"),
+            ("array depth %d" % n, "[" * n + "1" + "]" * n + "[0]" * n + " == 1"),
+            ("tuple depth %d" % n, "(" * n + "1" + ",)" * n + ".0" * n + " == 1"),
+            ("pair depth %d" % n, "(2," * n + "1" + ")" * n + ".1" * n + " == 1"),
+            ("bracketed ternaries depth %d" % n, "(true ? " * n + "true" + " : false)" * n),
+            ("call depth %d" % n, "to_string(" * n + "1" + ")" * n + " == \"1\""),
+            ("unbalanced depth %d" % n, "(" * n + "1 2" + ")" * n)]
+
+
+NESTED_MAIN = nested(12) + nested(25) + nested(80)        # config file: main thread
+NESTED_WORKER = nested(10) + nested(20)                     # POST /api/rules: 2 MB worker thread
 
 
 def line_for(doc, probe=True):
@@ -179,7 +195,7 @@ def run(tier, seed, replay=None):
             docs += cc.mutants(r, b, per)
         docs += cc.lb_graphs(r, 150 if tier == "quick" else 1500)
         docs += cc.access_log_docs()
-        for what, f in DEEP_FILTERS:
+        for what, f in DEEP_FILTERS + NESTED_MAIN:
             docs.append(("filter with " + what, {"apiVersion": "v1alpha", "kind": "ProxyDefinition", "listeners": [], "connectors": [{"name": "direct"}],
                                                  "rules": [{"filter": f, "target": "direct"}]}))
         docs += [("not a mapping", [1, 2]), ("scalar", "x"), ("empty", {}), ("null", None),
@@ -323,6 +339,7 @@ def run(tier, seed, replay=None):
                   {"x": 1}, "str", 5, None, [[1]], [{"filter": 7, "target": "direct"}], [{"target": 5}], [{}], [{"filter": "request.target.port == 80"}],
                   [{"filter": "a" * 70000, "target": "direct"}]]
         deep_bodies = [[{"filter": f, "target": "direct"}] for _, f in DEEP_FILTERS]
+        bodies += [[{"filter": f, "target": "direct"}] for _, f in NESTED_WORKER]
         for _ in range(30 if tier == "quick" else 300):
             bodies.append([r.choice([{"target": r.choice(["deny", "direct", "x", None, 3])}, {"filter": r.choice(cc.RETYPES), "target": "direct"}, r.choice(cc.RETYPES)])
                            for _ in range(r.randint(0, 4))])
@@ -360,7 +377,7 @@ def run(tier, seed, replay=None):
                 st = "no answer: %s" % str(e)[:60]
             if not p.alive() or not isinstance(st, int):
                 rep.fail("C18: POST /api/rules with a deeply nested filter (%d bytes): %s, proxy alive: %s" % (len(b[0]["filter"]), st, p.alive()),
-                         {"kind": "failing-input", "rules": "deep filter, %d bytes" % len(b[0]["filter"])}, tags=filter_class(b[0]["filter"]))
+                         {"kind": "failing-input", "rules": "deep filter, %d bytes" % len(b[0]["filter"])}, tags=filter_class(b[0]["filter"], worker=True))
             if p.alive() and not isinstance(st, int):
                 p.stop()            # a worker is spinning in the parser
         if p.alive():
